@@ -108,12 +108,119 @@ class ApplyWindowBody(Unit):
                    z3.And(toz(idx.f["seq_in"]) == z3.If(so == -1, -1, e1.f["seq_in"]), toz(aw.same(idx.f["seq"], new.f["seq"]))))
 
 
+class WindowIndex(Unit):
+    """apply_window._get_window_index: the window a consumer step sees is the one after the last edge consumed at or before that step
+    (never-sent entries are never selected; no such edge -> the initial, empty window)"""
+    name = "apply_window._get_window_index"
+    target = UT + "::apply_window"
+    props = ("C07", "C01")
+
+    def run(self, ctx):
+        ex = ctx.ex
+        n, m = z3.Int("num_vertices"), z3.Int("num_edges")
+        ctx.require(z3.And(n >= 1, m >= 0))
+        dist = Rec("DelayDistribution", {}, module=BASE, frozen=True)
+        win = z3.Int("conn.window")
+        ctx.require(win >= 1)
+        a = Rec("BaseNode", dict(name="a", rate=z3.Real("a.rate"), outputs={}, inputs={}), module=None)
+        b = Rec("BaseNode", dict(name="b", rate=z3.Real("b.rate"), outputs={}, inputs={}), module=None)
+        c = Rec("Connection", dict(output_node=a, input_node=b, delay_dist=dist, window=win, blocking=False, jitter=aw.JIT["LATEST"]), module=None)
+        a.f["outputs"]["b"] = c
+        b.f["inputs"]["a"] = c
+        va = Rec("Vertex", dict(seq=Arr.fresh("a.seq", INT, n), ts_start=Arr.fresh("a.ts_start", REAL, n), ts_end=Arr.fresh("a.ts_end", REAL, n)), module=BASE, frozen=True)
+        vb = Rec("Vertex", dict(seq=Arr.fresh("b.seq", INT, n), ts_start=Arr.fresh("b.ts_start", REAL, n), ts_end=Arr.fresh("b.ts_end", REAL, n)), module=BASE, frozen=True)
+        edge = Rec("Edge", dict(seq_out=Arr.fresh("e.seq_out", INT, m), seq_in=Arr.fresh("e.seq_in", INT, m), ts_recv=Arr.fresh("e.ts_recv", REAL, m)), module=BASE, frozen=True)
+        g = Rec("Graph", dict(vertices={"a": va, "b": vb}, edges={("a", "b"): edge}), module=BASE, frozen=True)
+        sin = Arr.fresh("indexed.seq_in", INT, m)        # the scan's per-edge seq_in (its own contract: unit apply_window._scan_body)
+
+        def scan(ex_, f, init, xs, length):
+            two_d = lambda t: Opaque(t)
+            idx = Rec("IndexedWindow", dict(seq=two_d("seq[m,W]"), ts_sent=two_d("ts_sent[m,W]"), ts_recv=two_d("ts_recv[m,W]"), seq_in=sin), module=BASE, frozen=True)
+            return init, idx
+        ex.opts["scan"] = scan
+        jnp = ex.lib.ns["jax.numpy"]
+        orig_array, orig_conc = jnp.entries["array"], jnp.entries.get("concatenate")
+
+        def array(ex_, x, dtype=None, **k):
+            if isinstance(x, _Rep):
+                return Arr(z3.K(INT, coerce(x.v, REAL if isinstance(x.v, float) else INT)), x.n)
+            if isinstance(x, Arr):
+                return _Row(x)
+            if isinstance(x, int) and not isinstance(x, bool):
+                return _IntS(x)
+            return orig_array(ex_, x, dtype=dtype, **k)
+
+        def concatenate(ex_, parts, axis=0):
+            first, last = parts
+            if isinstance(first, Arr) and isinstance(last, _Scalar1):
+                j = z3.Int("j!ew")
+                return Arr(z3.Lambda([j], z3.If(j < first.n, z3.Select(first.a, j), toz(last.v))), first.n + 1)
+            return Opaque("extended 2-D windows")
+        jnp.entries["array"], jnp.entries["concatenate"] = array, concatenate
+        saved_binop = ex.lib.binop
+
+        def binop(ex_, op, a_, b_, node):
+            import ast as _ast
+            if isinstance(op, _ast.Mult) and isinstance(a_, list) and len(a_) == 1 and is_sym(b_):
+                return _Rep(a_[0], b_)
+            if isinstance(op, _ast.Pow) and a_ == 2 and b_ == 31:
+                return 2 ** 31
+            return saved_binop(ex_, op, a_, b_, node)
+        ex.lib.binop = binop
+
+        def vmap(ex_, f, **k):
+            raise Captured(f=f)
+        ex.lib.ns["jax"].entries["vmap"] = vmap
+        try:
+            try:
+                ctx.call(args=[{"a": a, "b": b}, g])
+            except Captured as cap:
+                f = cap.kw["f"]
+            else:
+                ctx.ensure("apply_window maps the window index over the consumer's steps", z3.BoolVal(False))
+                return
+        finally:
+            jnp.entries["array"] = orig_array
+            if orig_conc is not None:
+                jnp.entries["concatenate"] = orig_conc
+            ex.lib.binop = saved_binop
+        s = z3.Int("consumer_step")
+        idx = toz(ex.call(f, [s], {}))
+        k = z3.Int("k!wi")
+        BIGI = z3.IntVal(2 ** 31 - 1)
+        eff = lambda t: z3.If(z3.Select(sin.a, t) == -1, BIGI, z3.Select(sin.a, t))     # never-sent entries can never be selected
+        ctx.require(s < BIGI)
+        ctx.ensure("C07/C01 the selected window is the one right after the LAST edge consumed at or before this step; -1 (the initial, empty window) if there is none; never-sent entries are skipped",
+                   z3.Or(z3.And(idx == -1, z3.ForAll([k], z3.Implies(z3.And(0 <= k, k < m), eff(k) > s))),
+                         z3.And(0 <= idx, idx < m, eff(idx) <= s, z3.ForAll([k], z3.Implies(z3.And(idx < k, k < m), eff(k) > s)))))
+
+
+class _Row:
+    def __init__(self, arr):
+        self.arr = arr
+
+    def pyvc_getitem(self, ex, i):
+        return Opaque("row[None]")
+
+
+class _Scalar1:
+    def __init__(self, v):
+        self.v = v
+
+
+class _IntS(int):
+    """a python int that can also be indexed with [None] (jnp.array(c)[None])"""
+
+    def pyvc_getitem(self, ex, i):
+        return _Scalar1(int(self))
+
+
 class _Rep:
     def __init__(self, v, n):
         self.v, self.n = v, n
 
 
-UNITS = [ApplyWindowBody(), RingPush("Window")]
+UNITS = [ApplyWindowBody(), WindowIndex()] + [u for u in compiled.UNITS if "C07" in u.props]
 
 
 def check(tier, seed):
